@@ -19,6 +19,8 @@ func TestReplay(t *testing.T) {
 	switch f.Test {
 	case "TestC16":
 		key, msg = replayC16(t, f.Script)
+	case "TestC17":
+		key, msg = replayC17(t, f.Script)
 	default:
 		t.Fatalf("no replay handler for %s", f.Test)
 	}
